@@ -269,6 +269,57 @@ def pd_seq(prog: Program) -> RuleResult:
     return r
 
 
+def _path_with_container_skipping(cfg: CFG, f: FuncInfo, loop_header: int):
+    """A path entry -> exit of the setter that handles a live monitored container yet avoids the re-populating loop.
+    Edges that establish "the backing value is not a monitored container" (false edge of isinstance(x, MonitoredContainer),
+    true edge of its negation, x not reassigned afterwards) or "the assigned value is the descriptor itself" are removed."""
+    vparam = f.params[2]
+
+    def reassigned_after(name: str, t: int) -> bool:
+        for i in cfg.reachable(t) - {t}:
+            st = cfg.nodes[i].stmt
+            if isinstance(st, (ast.Assign, ast.AnnAssign, ast.AugAssign)):
+                tg = st.targets if isinstance(st, ast.Assign) else [st.target]
+                if any(isinstance(x, ast.Name) and x.id == name for tt in tg for x in ast.walk(tt)):
+                    return True
+        return False
+
+    cut = set()  # (test node, polarity) edges not to follow
+    for t in cfg.nodes:
+        if t.kind != "test" or not isinstance(t.stmt, ast.If):
+            continue
+        tt, pol = t.stmt.test, True
+        if isinstance(tt, ast.UnaryOp) and isinstance(tt.op, ast.Not):
+            tt, pol = tt.operand, False
+        if isinstance(tt, ast.Call) and call_name(tt) == "isinstance" and len(tt.args) == 2 and isinstance(tt.args[0], ast.Name):
+            ty = src(tt.args[1])
+            if ty.endswith("MonitoredContainer") and not reassigned_after(tt.args[0].id, t.id):
+                cut.add((t.id, not pol))
+            elif tt.args[0].id == vparam and ty.endswith("PropertyDescriptor"):
+                cut.add((t.id, pol))
+    prev = {cfg.entry: None}
+    stack = [cfg.entry]
+    while stack:
+        n = stack.pop()
+        if n == cfg.exit:
+            out = []
+            while n is not None:
+                out.append(n)
+                n = prev[n]
+            return out[::-1]
+        node = cfg.nodes[n]
+        for sx in node.succ:
+            if sx == loop_header or sx in prev:
+                continue
+            if node.kind == "test" and isinstance(node.stmt, ast.If):
+                polarity = sx == node.true_succ
+                if (n, polarity) in cut:
+                    continue
+            prev[sx] = n
+            stack.append(sx)
+    return None
+
+
 def pd_aug(prog: Program, alias_ok: bool) -> RuleResult:
     r = RuleResult("PD-AUG", "+= and |= on a managed field record every new element", floor=2)
     mc = prog.cls(MC)
@@ -276,10 +327,21 @@ def pd_aug(prog: Program, alias_ok: bool) -> RuleResult:
     f = _set_fn(prog)
     # does the setter re-populate the container through the hook?
     repop = False
+    skip_path = None
+    cfg = CFG(f.node)
     for loop in [n for n in walk_local(f.node) if isinstance(n, ast.For)]:
         for c in calls_in(loop):
             if call_name(c) == "_add_item" and not any(k.arg == "add_relation_to_the_graph" and const_value(k.value) is False for k in c.keywords):
-                repop = True
+                # the loop must lie on *every* path that handles a live monitored container: an exit that skips it
+                # (say for `value is attr`, which is exactly what += / |= pass) leaves the new elements unrecorded
+                h = cfg.by_stmt.get(loop)
+                if h is None:
+                    continue
+                p = _path_with_container_skipping(cfg, f, h)
+                if p is None:
+                    repop = True
+                else:
+                    skip_path = cfg.describe(p)
     for c in [c for c in prog.subclasses(mc.qual, strict=True) if _builtin_base(prog, c)]:
         kind = _builtin_base(prog, c)
         for op in INPLACE[kind]:
@@ -288,7 +350,9 @@ def pd_aug(prog: Program, alias_ok: bool) -> RuleResult:
             r.check(
                 hooked or (repop and alias_ok), f"{c.name}.{op}", c.loc, op,
                 "in-place operator is hooked" if hooked else "the setter that follows the in-place operator re-adds every element through the hook from a snapshot",
-                "the in-place operator is not hooked and the setter does not safely re-populate: augmented assignment loses data or inferences",
+                "the in-place operator is not hooked and the setter does not safely re-populate"
+                + (f" (path {' -> '.join(skip_path)} leaves the setter without re-adding)" if skip_path else "")
+                + ": augmented assignment loses data or inferences",
             )
     return r
 
